@@ -172,6 +172,62 @@ def lookup_notes(cat, dbname):
     return res, None
 
 
+# ---- --lookup of several names at once: what is printed for a name (its notes; whether it counts as unknown) and the exit status do
+# not depend on the order the names are given in, nor on the other names given - every ordered pair and triple over a pool drawn from
+# all four categories, an unknown name, a gss-* instantiation and a strict-KEX marker
+def lookup_list_tasks():
+    import itertools as _it
+    pool = [H.db_names('kex')[0], H.db_names('key')[0], H.db_names('enc')[0], H.db_names('mac')[0], 'frob-x@example.org',
+            'gss-group14-sha256-a+b/c0==', '3des-cbc', 'kex-strict-s-v00@openssh.com']
+    pool = [n for i, n in enumerate(pool) if n not in pool[:i]]
+    return [tuple(c) for n in (2, 3) for c in _it.permutations(pool, n)]
+
+
+def _lookup_view(names):
+    res = H.lookup(list(names))
+    rep = report.TextReport(res.stdout)
+    notes = {}
+    for cat in ('kex', 'key', 'enc', 'mac'):
+        for a in rep.algs[cat]:
+            notes[(cat, a['name'])] = sorted((lv, t) for lv, t in a['notes'] if t != '')
+    txt = report.strip_ansi(res.stdout)
+    unknown = []
+    if '# unknown algorithms' in txt:
+        for l in txt.split('# unknown algorithms', 1)[1].split('\n')[1:]:
+            if not l.strip() or l.startswith(('#', '(')):
+                break
+            unknown.append(l.strip())
+    return res, notes, sorted(unknown)
+
+
+def work_lookup_lists(chunk, st):
+    singles = {}
+    for names in chunk:
+        res, notes, unknown = _lookup_view(names)
+        root = ('lookup-order', names)
+        st.execution(None, outcome=('lookup-order', res.status, len(unknown)), root=root, nontrivial=root)
+        d = {'asked': list(names), 'status': res.status}
+        if res.hang or res.exc:
+            st.violation('lookup-list:crash', dict(d, exc=res.exc))
+            continue
+        exp_notes, exp_unknown, statuses = {}, [], []
+        for n in names:
+            if n not in singles:
+                singles[n] = _lookup_view([n])
+            r1, n1, u1 = singles[n]
+            exp_notes.update(n1)
+            exp_unknown += u1
+            statuses.append(r1.status)
+        if sorted(unknown) != sorted(exp_unknown):
+            st.violation('lookup-list:unknown-section-depends-on-the-other-names', dict(d, listed_as_unknown=unknown, unknown_when_asked_alone=sorted(exp_unknown)))
+        elif notes != exp_notes:
+            bad = sorted(k for k in set(notes) | set(exp_notes) if notes.get(k) != exp_notes.get(k))
+            st.violation('lookup-list:notes-depend-on-the-other-names', dict(d, differs_for=[list(k) for k in bad][:4]))
+        elif res.status != max(statuses):
+            st.violation('lookup-list:status-%s-but-worst-single-status-%s' % (res.status, max(statuses)), d)
+    st.sample({'lookup_list': list(chunk[0])}, cap=3)
+
+
 def size_note(t):
     return 'modulus' in t and ('bit' in t)
 
@@ -455,6 +511,43 @@ def work_bystanders(chunk, st):
     st.sample({'bystanders_of': [chunk[0][0], chunk[0][1]], 'count': len(chunk[0][2])}, cap=6)
 
 
+# ---- the two group-exchange methods beside each other, served from different moduli: what is said about one of them (measured size,
+# size notes) is what is said when it is offered alone with the same moduli - whichever stands first, whatever the other one is handed
+GEXN = ('diffie-hellman-group-exchange-sha1', 'diffie-hellman-group-exchange-sha256')
+
+
+def gex_neighbour_tasks():
+    return [(m, s, t, order, fmt) for m in (0, 1) for s in (1024, 2048, 3072, 4096) for t in (1024, 2048, 4096, 8192, None) for order in (0, 1) for fmt in ('text', 'json')]
+
+
+def _gex_notes(res, fmt, name):
+    if fmt == 'json':
+        try:
+            e = next((x for x in json.loads(res.stdout).get('kex', []) if x['algorithm'] == name), None)
+        except ValueError:
+            return None
+        return None if e is None else (e.get('keysize'), sorted((lv, t) for lv in ('fail', 'warn', 'info') for t in e.get('notes', {}).get(lv, [])))
+    a = next((x for x in report.TextReport(res.stdout).algs['kex'] if x['name'] == name), None)
+    return None if a is None else sorted((lv, t) for lv, t in a['notes'] if t != '')
+
+
+def work_gex_neighbours(chunk, st):
+    for m, s_bits, t_bits, order, fmt in chunk:
+        me, other = GEXN[m], GEXN[1 - m]
+        opts = ['-n', '--skip-rate-test'] + (['-j'] if fmt == 'json' else [])
+        mk = lambda kexl, gex: peer.Server(kex=kexl + ['curve25519-sha256'], key=['ssh-ed25519'], enc=['aes256-ctr'], mac=['hmac-sha2-256'], banner=b'SSH-2.0-dropbear_2022.83',
+                                           host_keys=peer.standard_host_keys(['ssh-ed25519']), gex=gex)
+        alone = H.audit(mk([me], {me: peer.GexPolicy([s_bits], peer.STRICT)}), opts=opts)
+        both = H.audit(mk([me, other] if order == 0 else [other, me], {me: peer.GexPolicy([s_bits], peer.STRICT), other: peer.GexPolicy([t_bits] if t_bits else [], peer.STRICT)}), opts=opts)
+        root = ('gex-neighbours', m, s_bits, t_bits, order, fmt)
+        st.execution(both.world, outcome=('gex-neighbours', both.status), root=root, nontrivial=root)
+        a, b = _gex_notes(alone, fmt, me), _gex_notes(both, fmt, me)
+        if a is None or b is None or a != b:
+            st.violation('gex-neighbour:notes-depend-on-the-other-method:%s' % ('first' if order == 0 else 'second'),
+                         {'method': me, 'its_modulus': s_bits, 'other_method_modulus': t_bits, 'fmt': fmt, 'alone': str(a)[:300], 'beside_the_other': str(b)[:300]})
+    st.sample({'gex_neighbours': list(chunk[0])}, cap=3)
+
+
 def size_tasks(tier):
     out = []
     for bits in SIZE_SWEEP:
@@ -494,6 +587,8 @@ def run(tier, seed):
     par.pmap(_DL.work, _DL.tasks(tier), extra=(('notes',),), stats=st, chunk=12)
     from props import decor as _DC
     par.pmap(_DC.work, _DC.tasks(tier), extra=(('rating',),), stats=st, chunk=8)
+    par.pmap(work_lookup_lists, lookup_list_tasks(), stats=st, chunk=24)
+    par.pmap(work_gex_neighbours, gex_neighbour_tasks(), stats=st, chunk=8)
     # comma lists through --lookup
     for cat in ('kex', 'key', 'enc', 'mac'):
         names = H.db_names(cat)[:6]
@@ -517,7 +612,7 @@ def run(tier, seed):
         PID, tier, seed, st, t0,
         rule='every database name (gss-* entries instantiated with 3 base64 suffixes) and one unknown name per category x position '
              '{alone, first, middle, last} x %d neighbour contexts (marker x CBC x ETM, plus contexts whose neighbours earn measured-size notes: '
-             '1024-bit RSA key, certificate with 1024-bit CA, 1024-bit GEX modulus) x role x {text,json}, plus --lookup of every name; '
+             '1024-bit RSA key, certificate with 1024-bit CA, 1024-bit GEX modulus) x role x {text,json}, plus --lookup of every name; each group-exchange method beside the other one served from a different modulus (or none), both orders: same size and notes as alone; --lookup of every ordered pair and triple over 8 names of all categories (unknown, gss, marker among them) against the single-name lookups; '
              'RSA-family names (plain and certificate) x %d key sizes around every threshold (not multiples of 8/16 included) x CA kinds: size notes as the documented thresholds give for the key presented; '
              'every database name as a bystander next to every name that earns a note during the audit (each CBC / ChaCha cipher, each ETM MAC, small RSA keys, small GEX moduli); '
              'histories: every ordered pair (thorough: triple) of four servers sharing names in ONE -T invocation, each name rated as when its target is audited alone; '
